@@ -90,7 +90,7 @@ func normFault(s string, native string) string {
 }
 
 func isExplicitClass(c string) bool {
-	for _, p := range []string{"s:boom", "s:again", "s:late", "s:hostboom", "e:err", "i:", "E:", "pt:", "hpt:"} {
+	for _, p := range []string{"s:boom", "s:again", "s:late", "s:hostboom", "s:os.Exit", "e:err", "i:", "E:", "pt:", "hpt:"} {
 		if strings.HasPrefix(c, p) {
 			return true
 		}
@@ -288,6 +288,7 @@ func RunC06(t *testing.T, tape *Tape) *Outcome {
 		h = (h ^ uint64(p.entry+77)) * 1099511628211
 
 		sink := host.NewSink(2048, p.plan)
+		sink.Interp = true
 		var evalErr error
 		var evalRes reflect.Value
 		var hostPanic any
@@ -432,7 +433,8 @@ func faultName(ev string) string {
 		return "?"
 	}
 	names := [...]string{"panic-string", "panic-error", "panic-int", "panic-struct", "panic-interpreted-error", "nil-deref", "index-out-of-range",
-		"slice-out-of-range", "div-by-zero", "nil-map-write", "failed-type-assertion", "close-of-closed-channel", "host-function-panic", "panic-host-struct"}
+		"slice-out-of-range", "div-by-zero", "nil-map-write", "failed-type-assertion", "close-of-closed-channel", "host-function-panic", "panic-host-struct",
+		"panic-in-sort-callback", "panic-in-strings-map-callback", "os-exit-restricted", "log-fatal-restricted"}
 	var k int
 	fmt.Sscanf(ev[i:], "kind=%d", &k)
 	if k >= 0 && k < len(names) {
@@ -445,14 +447,14 @@ func faultName(ev string) string {
 //
 // The plan space of small call trees is enumerated completely (the
 // fault_enumeration part of C06): level A = one activation with up to two
-// deferred calls (18 defer variants: 14 plain forms + the recovering literal in
-// its 4 modes) and each of 29 bodies (return; each of 14 faults; result set then
-// each of 14 faults); level B = the same root calling one child that has up to
-// one deferred call and one of the 29 bodies. Entry point = index mod 5.
+// deferred calls (20 defer variants: 16 plain forms + the recovering literal in
+// its 4 modes) and each of 37 bodies (return; each of 18 faults; result set then
+// each of 18 faults); level B = the same root calling one child that has up to
+// one deferred call and one of the 37 bodies. Entry point = index mod 5.
 
 var c06DeferVariants = func() [][]int {
 	var v [][]int
-	for k := 0; k < 15; k++ {
+	for k := 0; k < 17; k++ {
 		if k == 5 {
 			for m := 0; m < 4; m++ {
 				v = append(v, []int{5, m})
@@ -466,10 +468,10 @@ var c06DeferVariants = func() [][]int {
 
 var c06Bodies = func() [][]int {
 	b := [][]int{{0}}
-	for k := 0; k < 14; k++ {
+	for k := 0; k < 18; k++ {
 		b = append(b, []int{3, k})
 	}
-	for k := 0; k < 14; k++ {
+	for k := 0; k < 18; k++ {
 		b = append(b, []int{7, 1, k})
 	}
 	return b
@@ -536,7 +538,7 @@ func init() {
 		if job.Tier == "quick" {
 			n = a
 		}
-		return map[string]any{"enumerated_subspace": fmt.Sprintf("case indices 0..%d are the complete enumeration of small call trees (level A: one activation, <=2 deferred calls x 29 bodies = %d plans; level A+B adds one child with <=1 deferred call = %d plans); this tier enumerates %d; the enumeration is complete iff fault_kinds_fired[enumerated-plans] equals that number", n-1, a, ab, n)}
+		return map[string]any{"enumerated_subspace": fmt.Sprintf("case indices 0..%d are the complete enumeration of small call trees (level A: one activation, <=2 deferred calls x 37 bodies = %d plans; level A+B adds one child with <=1 deferred call = %d plans); this tier enumerates %d; the enumeration is complete iff fault_kinds_fired[enumerated-plans] equals that number", n-1, a, ab, n)}
 	}, Case: func(t *testing.T, c *CaseCtx, idx int) {
 		a, ab := C06EnumCount()
 		n := ab
